@@ -14,7 +14,7 @@ RULE = ("(a) name level: all transfer-mode x platform-code combinations incl. ne
         "unknown ids, broken separators) handed to the four classes' _validate_header; (b) file level: spec-written files "
         "of the four formats with the name in the header (ASCII and EBCDIC cp500), only in the file name, or both, and with every "
         "other header field set to random bytes (POD start-time day bits 0..511); supplied "
-        "as path, PathLike, open binary file, BytesIO at positions 0 and p>0, gzip-compressed; archive headers; (c) histories: "
+        "as path, PathLike, open binary file (buffered, unbuffered, spooled temporary file), BytesIO at positions 0 and p>0, gzip-compressed; archive headers; (c) histories: "
         "random permutations of the candidate list and random sequences of selections; (d) faults: random bytes, empty and "
         "1-byte files, truncation at every structural boundary and at random offsets, gzip truncated at random offsets "
         "and with flipped bytes. A case = one selection; non-trivial = distinct (input, container, history position)")
@@ -184,7 +184,7 @@ def run(res, tier, seed):
         order0 = [CLS.index(c.__name__) for c in runner._reader_classes]
         for k in range(nsel):
             fmt, nm, enc, fname, data, exp = rng.choice(blobs)
-            container = rng.choice(["bytesio", "bytesio-pos", "path", "pathlike", "openfile", "gzip-bytesio", "gzip-path"])
+            container = rng.choice(["bytesio", "bytesio-pos", "path", "pathlike", "openfile", "gzip-bytesio", "gzip-path", "openfile-raw", "spooled"])
             ctx = dict(format_written=fmt, name=nm, encoding=enc, filename=fname, container=container, position_in_history=k, seed=seed)
             # which classes accept, asked individually (fresh BytesIO each): the input to the selector model
             row = []
@@ -208,15 +208,22 @@ def run(res, tier, seed):
                     fo.seek(p0)
                     got = select(fname, fo)
                     pos = (fo.tell(), p0)
-                elif container in ("path", "pathlike", "openfile", "gzip-path"):
+                elif container == "spooled":       # another kind of binary file object (not a buffered reader)
+                    import tempfile
+                    with tempfile.SpooledTemporaryFile(max_size=rng.choice([100, 10 ** 8])) as fo:
+                        fo.write(data)
+                        fo.seek(0)
+                        got = select(fname, fo)
+                        pos = (fo.tell(), 0)
+                elif container in ("path", "pathlike", "openfile", "openfile-raw", "gzip-path"):
                     # half of the anonymous files are written to ONE path that is rewritten again and again: the selection
                     # follows what the file holds now, not what was found under that path before
                     base = os.path.basename(fname) if fname != "somefile" else ("incoming.l1b" if rng.random() < 0.5 else "somefile_%d" % k)
                     path = os.path.join(d, base)
                     with open(path, "wb") as f:
                         f.write(gzip.compress(data) if container == "gzip-path" else data)
-                    if container == "openfile":
-                        with open(path, "rb") as fo:
+                    if container in ("openfile", "openfile-raw"):
+                        with open(path, "rb", **({"buffering": 0} if container == "openfile-raw" else {})) as fo:
                             got = select(path, fo)
                             pos = (fo.tell(), 0)
                     else:
